@@ -531,9 +531,17 @@ let rec wrap_pointers n t =
   | O -> t
   | S n' -> VPointer (wrap_pointers n' t)
 
-(** val autoderef_finish : tstep list -> vt -> vt -> coq_N -> ad_result **)
+(** val address_arm_cond : bool -> coq_N -> vt -> bool **)
 
-let autoderef_finish taken current_type target_type address_depth =
+let address_arm_cond pinned address_depth current_type =
+  if pinned
+  then N.ltb N0 address_depth
+  else N.eqb address_depth (N.add (Npos Coq_xH) (pointer_depth current_type))
+
+(** val autoderef_finish_gen :
+    bool -> tstep list -> vt -> vt -> coq_N -> ad_result **)
+
+let autoderef_finish_gen pinned taken current_type target_type address_depth =
   let ad0 = N.eqb address_depth N0 in
   let tpd0 = N.eqb (pointer_depth target_type) N0 in
   if (&&) ((&&) ad0 tpd0) (vt_eqb current_type target_type)
@@ -548,7 +556,9 @@ let autoderef_finish taken current_type target_type address_depth =
                         (is_slice_pointer current_type))
                       (vt_eqb current_type target_type)
                  then ADOk (taken, false, current_type, None)
-                 else if (&&) (N.ltb N0 address_depth)
+                 else if (&&)
+                           (address_arm_cond pinned address_depth
+                             current_type)
                            (opt_vt_eqb (get_pointee_type target_type)
                              current_type)
                       then ADOk (taken, true, (VPointer current_type), None)
@@ -578,6 +588,11 @@ let autoderef_finish taken current_type target_type address_depth =
                                                    (N.to_nat address_depth)
                                                    (fully_dereferenced
                                                      current_type)), None)
+
+(** val autoderef_finish : tstep list -> vt -> vt -> coq_N -> ad_result **)
+
+let autoderef_finish =
+  autoderef_finish_gen false
 
 (** val autoderef :
     (coq_N -> vt option) -> vt -> vt -> astep list -> coq_N -> ad_result **)
